@@ -19,7 +19,7 @@ pub fn check(sc: &Scenario, out: &RunOutput) -> OracleResult {
         return res;
     };
     let nagle = !sc.nodes[0].opts.disable_nagle;
-    let evs = w.events();
+    let evs = w.events_effective();
     let max_own = crate::scen_gen::max_payload(w.link, w.ipv6);
     let mut proven = w.mss_floor;
     let mut sent: BTreeMap<u16, (usize, Option<T>)> = BTreeMap::new(); // seq -> (len, acked at)
@@ -37,6 +37,17 @@ pub fn check(sc: &Scenario, out: &RunOutput) -> OracleResult {
     // must leave at that instant: obligation (t, idx)
     let mut drain_obligation: Option<T> = None;
     let mut held_bytes_after_last_poll: usize = 0;
+    // segments cut but not yet transmitted at the end of the previous poll (packets, bytes)
+    // sent sequence numbers still in the sender's queue (send order; popped from the front
+    // once acknowledged)
+    let mut queue: std::collections::VecDeque<u16> = Default::default();
+    let mut precut_pkts: usize = 0;
+    let mut precut_bytes: usize = 0;
+    let mut new_tx_this_poll: usize = 0;
+    let mut windows_seen: Vec<u32> = vec![];
+    let mut precut_small = 0u64;
+    let mut snap_mss: Option<usize> = None;
+    let mut conn_over = false;
     let mut writer_gone = false;
 
     for (t, _, x) in &evs {
@@ -49,7 +60,7 @@ pub fn check(sc: &Scenario, out: &RunOutput) -> OracleResult {
             t_now = t;
             if let Some(td) = drain_obligation {
                 if t > td {
-                    if nagle && !hostile && !peer_closed {
+                    if nagle && !hostile && !peer_closed && !conn_over {
                         res.violate(P, "held-bytes-not-sent-when-pipe-drained", td, format!("the last outstanding data was acknowledged at {} while bytes were held back, but no data segment left at that instant", crate::hist::fmt_t(td)));
                     }
                     drain_obligation = None;
@@ -65,24 +76,45 @@ pub fn check(sc: &Scenario, out: &RunOutput) -> OracleResult {
                     peer_closed = true;
                 }
                 wnd_at_instant.push(p.wnd);
+                if !windows_seen.contains(&p.wnd) {
+                    windows_seen.push(p.wnd);
+                }
                 if p.typ == codec::ST_DATA {
                     proven = proven.max(p.payload.len().min(max_own));
                 }
                 if let Some(n) = next_unsent {
+                    // acknowledges (cumulatively or selectively) data that was never sent
                     if seq_diff(p.ack, n) >= 0 {
                         hostile = true;
                     }
-                }
-                let before = outstanding;
-                for (s, (l, a)) in sent.iter_mut() {
-                    if a.is_none() && covers(p, *s) {
-                        *a = Some(t);
-                        outstanding -= *l as i64;
-                        proven = proven.max((*l).min(max_own));
+                    if let Some(bits) = p.sack_bits() {
+                        for (k, b) in bits.iter().enumerate() {
+                            if *b && seq_diff(p.ack.wrapping_add(2).wrapping_add(k as u16), n) >= 0 {
+                                hostile = true;
+                            }
+                        }
                     }
                 }
-                if before > 0 && outstanding == 0 && held_bytes_after_last_poll > 0 && p.wnd > 0 && !writer_gone {
+                let before = outstanding;
+                for s in queue.iter() {
+                    if let Some((l, a)) = sent.get_mut(s) {
+                        if a.is_none() && covers(p, *s) {
+                            *a = Some(t);
+                            outstanding -= *l as i64;
+                            proven = proven.max((*l).min(max_own));
+                        }
+                    }
+                }
+                // (the window must be able to take a full segment or everything that is held:
+                // a narrower window is "what limits it" - the library cannot re-cut the segments
+                // it has already cut for an older, wider window)
+                // (segments already cut go first and cannot be re-cut: the window must take them)
+                let need = if precut_pkts > 0 { precut_bytes } else { held_bytes_after_last_poll.min(proven) };
+                if before > 0 && outstanding == 0 && held_bytes_after_last_poll > 0 && (p.wnd as usize) >= need && !writer_gone && !conn_over && !fin_seen {
                     drain_obligation = Some(t);
+                } else if drain_obligation == Some(t) && (p.wnd as usize) < need {
+                    // a later packet of the same batch narrows the window again
+                    drain_obligation = None;
                 }
             }
             X::EmitE(p, _) => {
@@ -95,6 +127,10 @@ pub fn check(sc: &Scenario, out: &RunOutput) -> OracleResult {
                 drain_obligation = None;
                 let len = p.payload.len();
                 let first = !sent.contains_key(&p.seq);
+                // the segment size it could have used: what the wire proves, but not more than
+                // the sender's own current segment size (a probe whose acknowledgement came
+                // after it had been taken back proves nothing to the sender)
+                let proven = snap_mss.map_or(proven, |m| proven.min(m.max(w.mss_floor)));
                 if next_unsent.is_none_or(|n| seq_diff(p.seq, n) >= 0) {
                     next_unsent = Some(p.seq.wrapping_add(1));
                 }
@@ -110,8 +146,9 @@ pub fn check(sc: &Scenario, out: &RunOutput) -> OracleResult {
                     }
                     continue;
                 }
-                // earlier data un-acked (no covering ACK delivered strictly before this instant)?
-                let unacked_before = sent.values().any(|(_, a)| a.is_none_or(|ta| ta >= t));
+                // earlier data un-acked (no covering ACK delivered before this emission, in the
+                // order of the event log)?
+                let unacked_before = queue.iter().any(|q| sent.get(q).is_some_and(|(_, a)| a.is_none()));
                 if len < proven {
                     small_sent += 1;
                     if unacked_before {
@@ -123,17 +160,47 @@ pub fn check(sc: &Scenario, out: &RunOutput) -> OracleResult {
                                 wnds.push(l);
                             }
                             let window_limited = wnds.iter().any(|wv| (*wv as i64 - outstanding) <= len as i64);
+                            // Was this segment cut in an earlier poll (it existed, un-sent, at the
+                            // end of the previous poll) to exactly fill a window advertised then?
+                            // (cut size = that window minus a whole number of full segments)
+                            let precut = new_tx_this_poll < precut_pkts;
+                            let window_cut = windows_seen.iter().any(|wv| (*wv as usize) >= len && ((*wv as usize - len) % proven.max(1) == 0 || (*wv as usize) < proven));
                             if !window_limited {
-                                res.violate(P, "partial-segment-while-unacked", t, format!("Nagle on: first transmission of seq {} with {} bytes (< proven segment size {}) while earlier data is un-acknowledged ({} bytes outstanding, advertised windows {:?})", p.seq, len, proven, outstanding, wnds));
+                                if precut && window_cut {
+                                    precut_small += 1;
+                                    res.violate(P, "window-cut-segment-sent-after-window-grew", t, format!("Nagle on: first transmission of seq {} with {} bytes (< proven segment size {}) while earlier data is un-acknowledged ({} bytes outstanding, advertised windows now {:?}); the segment was cut in an earlier poll to fit a window advertised then", p.seq, len, proven, outstanding, wnds));
+                                } else {
+                                    res.violate(P, "partial-segment-while-unacked", t, format!("Nagle on: first transmission of seq {} with {} bytes (< proven segment size {}) while earlier data is un-acknowledged ({} bytes outstanding, advertised windows {:?}; pre-cut: {}, fits an earlier window: {})", p.seq, len, proven, outstanding, wnds, precut, window_cut));
+                                }
                             }
                         }
                     }
                 }
                 sent.insert(p.seq, (len, None));
+                queue.push_back(p.seq);
                 outstanding += len as i64;
+                new_tx_this_poll += 1;
             }
             X::Snap(s) => {
+                if s.finished.is_some() {
+                    conn_over = true;
+                    drain_obligation = None;
+                }
                 held_bytes_after_last_poll = s.unsegmented;
+                snap_mss = Some(s.mss as usize);
+                // cut and never transmitted: everything in the segment queue beyond what the wire
+                // shows as sent and not cumulatively acknowledged
+                while let Some(q) = queue.front() {
+                    if sent.get(q).is_some_and(|(_, a)| a.is_some()) {
+                        queue.pop_front();
+                    } else {
+                        break;
+                    }
+                }
+                let in_queue_bytes: usize = queue.iter().filter_map(|q| sent.get(q)).map(|(l, _)| *l).sum();
+                precut_pkts = s.segmented_packets.saturating_sub(queue.len());
+                precut_bytes = s.segmented_bytes.saturating_sub(in_queue_bytes);
+                new_tx_this_poll = 0;
                 writer_gone = s.writer_dropped && false;
                 // Nagle off: nothing is held back except by window / congestion control / an
                 // outstanding probe / a closing connection
@@ -153,6 +220,7 @@ pub fn check(sc: &Scenario, out: &RunOutput) -> OracleResult {
     let _ = fin_seen;
     res.probe("sub_segment_first_transmissions", small_sent);
     res.probe("sub_segment_while_unacked", small_while_unacked);
+    res.probe("window_cut_segments_sent_late", precut_small);
     res.relevant = small_sent > 0;
     res
 }
